@@ -132,18 +132,11 @@ fn write_if_changed(path: &Path, content: &[u8]) {
     std::fs::write(path, content).unwrap();
 }
 
-fn write_crate(dir: &Path, pkg: &str, exec: bool, cases: &[&ProbeCase]) {
+fn write_member(dir: &Path, pkg: &str, exec: bool, cases: &[&ProbeCase]) {
     let src = dir.join("src");
-    // fresh src tree (cases differ between runs); keep Cargo.lock
     let _ = std::fs::remove_dir_all(&src);
     std::fs::create_dir_all(&src).unwrap();
-    write_if_changed(&dir.join("Cargo.toml"), cargo_toml(pkg, exec).as_bytes());
-    let lock = harness_dir().join("probe-lock").join("Cargo.lock");
-    if !dir.join("Cargo.lock").exists() {
-        if let Ok(l) = std::fs::read(&lock) {
-            std::fs::write(dir.join("Cargo.lock"), l).unwrap();
-        }
-    }
+    write_if_changed(&dir.join("Cargo.toml"), cargo_toml(pkg, exec).replace("\n[workspace]\n", "\n").replace("[profile.dev]\ndebug = 0\nopt-level = 0\nincremental = false\ncodegen-units = 32\n", "").as_bytes());
     std::fs::write(src.join("support.rs"), SUPPORT_RS).unwrap();
     let mut root_rs = String::new();
     if exec {
@@ -172,6 +165,46 @@ fn write_crate(dir: &Path, pkg: &str, exec: bool, cases: &[&ProbeCase]) {
     std::fs::write(src.join(if exec { "main.rs" } else { "lib.rs" }), root_rs).unwrap();
 }
 
+/// Number of member crates a batch is split into (cargo builds members in parallel).
+fn shard_count(n: usize) -> usize {
+    if n <= 40 {
+        1
+    } else {
+        (n / 40).clamp(2, 16)
+    }
+}
+
+/// Writes a workspace `dir` with `shards` member crates holding the live cases; shard of a case is
+/// fixed by its position in the full case list so that unchanged members stay fresh between rounds.
+fn write_workspace(dir: &Path, pkg: &str, exec: bool, all: &[ProbeCase], live: &dyn Fn(&ProbeCase) -> bool, shards: usize) {
+    std::fs::create_dir_all(dir).unwrap();
+    let members: Vec<String> = (0..shards).map(|i| format!("s{i:02}")).collect();
+    let ws = format!(
+        "[workspace]\nresolver = \"2\"\nmembers = [{}]\n\n[profile.dev]\ndebug = 0\nopt-level = 0\nincremental = false\ncodegen-units = 32\n",
+        members.iter().map(|m| format!("\"{m}\"")).collect::<Vec<_>>().join(", ")
+    );
+    write_if_changed(&dir.join("Cargo.toml"), ws.as_bytes());
+    let lock = harness_dir().join("probe-lock").join("Cargo.lock");
+    if !dir.join("Cargo.lock").exists() {
+        if let Ok(l) = std::fs::read(&lock) {
+            std::fs::write(dir.join("Cargo.lock"), l).unwrap();
+        }
+    }
+    // remove stale members of an earlier, larger batch
+    if let Ok(rd) = std::fs::read_dir(dir) {
+        for e in rd.flatten() {
+            let n = e.file_name().to_string_lossy().to_string();
+            if n.starts_with('s') && n.len() == 3 && !members.contains(&n) {
+                let _ = std::fs::remove_dir_all(e.path());
+            }
+        }
+    }
+    for (si, m) in members.iter().enumerate() {
+        let cases: Vec<&ProbeCase> = all.iter().enumerate().filter(|(i, c)| i % shards == si && live(c)).map(|(_, c)| c).collect();
+        write_member(&dir.join(m), &format!("{pkg}_{m}"), exec, &cases);
+    }
+}
+
 fn target_dir() -> PathBuf {
     root().join("target").join("probe-target")
 }
@@ -180,6 +213,8 @@ fn target_dir() -> PathBuf {
 fn cargo_json(dir: &Path, sub: &str) -> (bool, BTreeMap<String, (Vec<(String, String)>, Vec<(String, String)>)>, Vec<String>) {
     let out = Command::new("cargo")
         .arg(sub)
+        .arg("--workspace")
+        .arg("--keep-going")
         .arg("--offline")
         .arg("--message-format=json")
         .current_dir(dir)
@@ -210,6 +245,8 @@ fn cargo_json(dir: &Path, sub: &str) -> (bool, BTreeMap<String, (Vec<(String, St
         // find the case by walking spans and their macro expansions
         fn find(span: &Value) -> Option<(String, bool)> {
             if let Some(f) = span["file_name"].as_str() {
+                // `sNN/src/<case>/<file>` (workspace member) or `src/<case>/<file>`
+                let f = if f.len() > 4 && f.starts_with('s') && f.as_bytes()[3] == b'/' { &f[4..] } else { f };
                 if let Some(rest) = f.strip_prefix("src/") {
                     let mut it = rest.split('/');
                     if let (Some(case), Some(file)) = (it.next(), it.next()) {
@@ -267,12 +304,12 @@ pub fn run_batch(batch: &str, cases: &[ProbeCase], exec: bool) -> Vec<CaseResult
     // ---- check flavour
     let cdir = base.join(format!("{batch}-check"));
     let pkg = format!("probe_{}_check", batch.to_lowercase().replace('-', "_"));
+    let shards = shard_count(cases.len());
     for round in 0..6 {
-        let live: Vec<&ProbeCase> = cases.iter().filter(|c| verdicts[&c.name] == Verdict::Accepted).collect();
-        if live.is_empty() {
+        if !cases.iter().any(|c| verdicts[&c.name] == Verdict::Accepted) {
             break;
         }
-        write_crate(&cdir, &pkg, false, &live);
+        write_workspace(&cdir, &pkg, false, cases, &|c| verdicts[&c.name] == Verdict::Accepted, shards);
         let (ok, errs, unattr) = cargo_json(&cdir, "check");
         if !unattr.is_empty() {
             machinery(&format!("probe batch {batch} (check): compiler errors that cannot be attributed to a case:\n{}", unattr.join("\n")));
@@ -303,9 +340,9 @@ pub fn run_batch(batch: &str, cases: &[ProbeCase], exec: bool) -> Vec<CaseResult
     if exec {
         let xdir = base.join(format!("{batch}-exec"));
         let xpkg = format!("probe_{}_exec", batch.to_lowercase().replace('-', "_"));
-        let live: Vec<&ProbeCase> = cases.iter().filter(|c| verdicts[&c.name] == Verdict::Accepted).collect();
-        if !live.is_empty() {
-            write_crate(&xdir, &xpkg, true, &live);
+        let n_live = cases.iter().filter(|c| verdicts[&c.name] == Verdict::Accepted).count();
+        if n_live > 0 {
+            write_workspace(&xdir, &xpkg, true, cases, &|c| verdicts[&c.name] == Verdict::Accepted, shards);
             let (ok, errs, unattr) = cargo_json(&xdir, "build");
             if !ok || !errs.is_empty() || !unattr.is_empty() {
                 machinery(&format!(
@@ -314,13 +351,17 @@ pub fn run_batch(batch: &str, cases: &[ProbeCase], exec: bool) -> Vec<CaseResult
                     unattr.iter().take(3).collect::<Vec<_>>()
                 ));
             }
-            let bin = target_dir().join("debug").join(&xpkg);
-            let out = Command::new(&bin).output().unwrap_or_else(|e| machinery(&format!("cannot run probe binary {}: {e}", bin.display())));
-            if !out.status.success() {
-                machinery(&format!("probe binary of batch {batch} exited with {:?}: {}", out.status, String::from_utf8_lossy(&out.stderr).chars().take(500).collect::<String>()));
+            let mut stdout_all = String::new();
+            for si in 0..shards {
+                let bin = target_dir().join("debug").join(format!("{xpkg}_s{si:02}"));
+                let out = Command::new(&bin).output().unwrap_or_else(|e| machinery(&format!("cannot run probe binary {}: {e}", bin.display())));
+                if !out.status.success() {
+                    machinery(&format!("probe binary of batch {batch} exited with {:?}: {}", out.status, String::from_utf8_lossy(&out.stderr).chars().take(500).collect::<String>()));
+                }
+                stdout_all.push_str(&String::from_utf8_lossy(&out.stdout));
             }
             let mut cur: Option<String> = None;
-            for line in String::from_utf8_lossy(&out.stdout).lines() {
+            for line in stdout_all.lines() {
                 if let Some(n) = line.strip_prefix("@@CASE ") {
                     cur = Some(n.to_string());
                     records.insert(n.to_string(), vec![]);
